@@ -558,10 +558,14 @@ func (g *gen) qualifyImport(name, path string) string {
 		return ""
 	}
 	// TODO(light): This is depending on details of the current loader.
+	// Strip everything up to the last path element named "vendor" (an element
+	// that merely ends in "vendor", such as "govendor", is not one).
 	const vendorPart = "vendor/"
 	unvendored := path
-	if i := strings.LastIndex(path, vendorPart); i != -1 && (i == 0 || path[i-1] == '/') {
-		unvendored = path[i+len(vendorPart):]
+	if i := strings.LastIndex(path, "/"+vendorPart); i != -1 {
+		unvendored = path[i+len("/"+vendorPart):]
+	} else if strings.HasPrefix(path, vendorPart) {
+		unvendored = path[len(vendorPart):]
 	}
 	if info, ok := g.imports[unvendored]; ok {
 		return info.name
